@@ -309,15 +309,18 @@ AddrPool == << <<"a", <<0, 0>> \o Pay(20, 1, 7, 9), <<>>>>,                     
                <<"a", <<0, 3>> \o Pay(20, 255, 1, 255), <<>>>>,                       \* tz4
                <<"a", <<0, 1>> \o Pay(20, 4, 4, 4), <<>>>>,                          \* tz2
                <<"a", <<1>> \o Pay(20, 200, 3, 77) \o <<0>>, [j \in 1..31 |-> 97 + (j % 26)]>>,     \* KT1 with an entrypoint name of the maximal length (31)
-               <<"a", <<0, 0>> \o Pay(20, 1, 7, 9), <<100, 101, 102, 97, 117, 108, 116, 95, 97, 100, 109, 105, 110>>>> >>   \* tz1 .. %default_admin: begins with, but is not, the default name
+               <<"a", <<0, 0>> \o Pay(20, 1, 7, 9), <<100, 101, 102, 97, 117, 108, 116, 95, 97, 100, 109, 105, 110>>>>,     \* tz1 .. %default_admin: begins with, but is not, the default name
+               <<"a", <<1>> \o Pay(20, 9, 9, 9) \o <<0>>, <<115, 101, 116, 95, 100, 101, 102, 97, 117, 108, 116>>>> >>      \* KT1 .. %set_default: ends in, but is not, the default name
 KhPool == << <<"o", <<0>> \o Pay(20, 0, 5, 6)>>,         \* tz1, digest starting 00
              <<"o", <<1>> \o Pay(20, 9, 9, 0)>>,         \* tz2, digest ending 00
              <<"o", <<3>> \o Pay(20, 255, 255, 255)>>,   \* tz4
-             <<"o", <<2>> \o Pay(20, 3, 1, 0)>> >>       \* tz3
+             <<"o", <<2>> \o Pay(20, 3, 1, 0)>>,        \* tz3
+             <<"o", <<0, 6, 161, 159, 6, 161>> \o Pay(15, 159, 6, 161)>> >>     \* tz1 whose hash begins with (and contains again) the bytes of the tz1 base58 prefix
 \* two keys of one curve (ordered by their bytes) come first
 KeyPool == << <<"o", <<0>> \o Pay(32, 1, 2, 3)>>, <<"o", <<0>> \o Pay(32, 1, 2, 4)>>, <<"o", <<1>> \o Pay(33, 2, 0, 0)>>, <<"o", <<3>> \o Pay(48, 23, 1, 200)>>, <<"o", <<2>> \o Pay(33, 3, 200, 1)>> >>
-SigPool == << <<"o", Pay(64, 1, 2, 3)>>, <<"o", Pay(96, 0, 255, 0)>> >>
-ChainPool == << <<"o", <<122, 6, 167, 112>>>>, <<"o", <<0, 0, 0, 0>>>> >>
+SigPool == << <<"o", Pay(64, 1, 2, 3)>>, <<"o", Pay(96, 0, 255, 0)>>,
+             <<"o", <<4, 130, 43, 43, 4>> \o Pay(59, 130, 4, 43)>> >>      \* 64 bytes beginning with (and ending in) the bytes of the generic signature prefix 04 82 2b
+ChainPool == << <<"o", <<122, 6, 167, 112>>>>, <<"o", <<0, 0, 0, 0>>>>, <<"o", <<87, 82, 0, 87>>>> >>     \* the last one: the bytes of the Net prefix 57 52 00
 LamPool == << <<"lam", <<>>>>, <<"lam", << <<"DROP", 1>>, <<"UNIT">> >>>> >>
 LeafPool(t) == CASE t[1] = "int" -> IntPool [] t[1] = "nat" -> NatPool [] t[1] = "mutez" -> MutezPool [] t[1] = "timestamp" -> TsPool
                  [] t[1] = "string" -> StrPool [] t[1] = "bytes" -> BytesPool [] t[1] = "bool" -> BoolPool [] t[1] = "unit" -> << <<"unit">> >>
